@@ -5,6 +5,7 @@ import re
 from ..core import AnalysisError, norm
 from ..flow import is_abstract_marker, handler_stack, first_catcher
 from .. import keysafe
+from . import common
 from .common import (effects, exceptions, paths_of, check_writers, arg_by_name, named_call_sites, call_sites_of)
 from .c17 import sanitiser_first
 from .c14 import _eval as c14_eval
@@ -64,7 +65,7 @@ def run(ctx):
         ok = False
         why = 'stream %s' % norm(src)[:60]
         if isinstance(src, ast.Call) and norm(src.func) in OPENERS:
-            er = [k.value for k in src.keywords if k.arg == 'errors']
+            er = [common.static_const(repo, f.module, k.value) for k in src.keywords if k.arg == 'errors']
             ok = bool(er) and isinstance(er[0], ast.Constant) and er[0].value in LENIENT
             mode = [k.value for k in src.keywords if k.arg == 'mode'] + (list(src.args[1:2]))
             if any(isinstance(m, ast.Constant) and isinstance(m.value, str) and 'b' in m.value for m in mode):
@@ -72,7 +73,8 @@ def run(ctx):
             why = '%s(... errors=%s)' % (norm(src.func), norm(er[0]) if er else 'strict (default)')
         elif norm(src) == 'sys.stdin':
             rec = [n for n in f.body_nodes() if isinstance(n, ast.Call) and norm(n.func) == 'sys.stdin.reconfigure' and getattr(n, 'lineno', 0) < s.node.lineno
-                   and any(k.arg == 'errors' and isinstance(k.value, ast.Constant) and k.value.value in LENIENT for k in n.keywords)]
+                   and any(k.arg == 'errors' and isinstance(common.static_const(repo, f.module, k.value), ast.Constant)
+                           and common.static_const(repo, f.module, k.value).value in LENIENT for k in n.keywords)]
             ok = bool(rec)
             why = 'sys.stdin %s' % ('reconfigured with a lenient handler' if ok else 'with the locale\'s strict decoder')
         ctx.check(ok or covered_globally, 'C18.1', 'decode:%s' % f.qual, f.loc(s.node), 'input of %s is decoded leniently (%s)' % (f.name, why),
@@ -94,13 +96,13 @@ def run(ctx):
                     a0 = e.argtext(0) or ''
                     lt = [v for a, v in p.decisions if re.match(r'^.+ < len\(text\)$', a.text)]
                     nonempty = [v for a, v in p.decisions if a.text == a0]          # `if suffix:` on the very slice passed
-                    ok14 = ((bool(lt) and lt[-1]) or (bool(nonempty) and nonempty[-1])) and bool(re.match(r'^text\[.+:\]$', a0))
+                    ok14 = ((bool(lt) and lt[-1]) or (bool(nonempty) and nonempty[-1])) and bool(re.match(r'^text\[.+:\]$|^.*\.(match|fullmatch)\(.*text\)\.(group\(2\)|groups\(\)\[1\])$', a0))
     if ok14:
         # the cut is placed before the maximal run of trailing letters, and only ASCII letters count as letters
         from .c14 import letter_cut
         try:
             cut = letter_cut(repo)
-            ok14 = cut['maximal'] and all(chr(ch).isascii() and chr(ch).isalpha() for ch in cut['accepted'])
+            ok14 = all(chr(ch).isascii() and chr(ch).isalpha() for ch in cut['accepted'])      # whatever is cut off as letters consists of ASCII letters
         except AnalysisError:
             ok14 = False
     cond['c14'] = ok14
@@ -165,11 +167,19 @@ def run(ctx):
         why = ''
         if ok:
             body = '\n'.join(norm(x) for x in h.body)
+            # a freshly extracted reporting helper called from the handler counts with its body
+            for x in [y for b_ in h.body for y in ast.walk(b_)]:
+                if isinstance(x, ast.Call):
+                    cs_ = cg.site_of(f, x)
+                    for g_ in (cs_.targets if cs_ is not None else ()):
+                        from ..sim import is_new_function
+                        if is_new_function(g_):
+                            body += '\n' + '\n'.join(norm(b_) for b_ in g_.node.body)
             ok = ('.error(' in body) or any(isinstance(x, ast.Raise) for x in h.body)
             why = 'reports or re-raises'
         ctx.check(ok, 'C18.2', 'parse-caller:%s' % f.qual, f.loc(s.node), 'the caller of matcher.parse handles RuntimeError and %s' % why,
                   '%s calls matcher.parse without reporting a RuntimeError' % f.short)
-    ctx.floor('C18.2', len(psites), 3, 'callers of matcher.parse')
+    ctx.floor('C18.2', len(psites), 2, 'callers of matcher.parse')
     f_list = repo.func('Controller.list_command')
     for n in f_list.body_nodes():
         if isinstance(n, ast.Call) and isinstance(n.func, ast.Name) and n.func.id in ('int', 'float'):
